@@ -63,6 +63,26 @@ def check_comparisons(failures):
             failures.append({'kind': 'spec', 'what': 'comparison operators inconsistent for a=%r b=%r: %s' % (a, b, why),
                              'payload': {'query': q, 'input_lines': [json.dumps({'i': r['i'], 'j': r['j'], 'a': a, 'b': b}) + '\n'], 'row': r}})
             break
+    # the same for COMPUTED values that land on a boundary (an overflowed result that rounds to -2^63, 2^63, 2^53):
+    # exactly one of <, ==, > against the stored integer next to it, and equal values group together
+    crow = json.dumps({'m': -2**63, 'M': 2**63 - 1, 'h': -4611686018427387905, 'H': 4611686018427387904, 'p': 2**53, 'one': 1, 'zero': 0}) + '\n'
+    for expr, other in (('m - one', 'm'), ('m + (zero - one)', 'm'), ('h * 2', 'm'), ('h + h', 'm'), ('M + one', 'M'), ('H * 2', 'M'), ('p + one', 'p'), ('m - zero', 'm'), ('M + zero', 'M')):
+        q2 = '* | json | %s as x | x < %s as lt | x == %s as eq | x > %s as gt | x <= %s as le | x >= %s as ge | x != %s as ne | fields lt, eq, gt, le, ge, ne' % ((expr,) + (other,) * 6)
+        ok2, rows2, o2 = run_raw(q2, [crow])
+        n += 1
+        if not ok2 or len(rows2) != 1:
+            failures.append({'kind': 'spec', 'what': 'comparison of a computed boundary value did not run cleanly', 'payload': {'query': q2, 'input_lines': [crow], 'stderr': o2['err'].decode('utf8', 'replace')[-300:]}})
+            continue
+        r2 = rows2[0]
+        if [r2['lt'], r2['eq'], r2['gt']].count(True) != 1 or r2['le'] != (r2['lt'] or r2['eq']) or r2['ge'] != (r2['gt'] or r2['eq']) or r2['ne'] != (not r2['eq']):
+            failures.append({'kind': 'spec', 'what': 'comparison operators inconsistent for the computed value %s against %s: %r' % (expr, other, r2),
+                             'payload': {'query': q2, 'input_lines': [crow], 'row': r2}})
+    gq = '* | json | m - one as x | count by x'
+    okg, rowsg, og = run_raw(gq, [crow, json.dumps({'m': -2**63, 'one': 0}) + '\n'])
+    n += 1
+    if okg and rowsg and len(rowsg[0] if isinstance(rowsg[0], list) else rowsg) != 1:
+        failures.append({'kind': 'spec', 'what': 'i64::MIN - 1 (= the double -2^63) and i64::MIN compare equal but form %d groups' % len(rowsg[0] if isinstance(rowsg[0], list) else rowsg),
+                         'payload': {'query': gq, 'input_lines': [crow, json.dumps({'m': -2**63, 'one': 0}) + '\n']}})
     # transitivity of < on all triples, from the pairwise table
     ltm = {(r['i'], r['j']): r['lt'] for r in rows}
     eqm = {(r['i'], r['j']): r['eq'] for r in rows}
